@@ -28,7 +28,7 @@ EXAMPLES = [
 
 def station():
     hp = st.tuples(st.sampled_from(['H', 'P']), st.sampled_from(GRID)).map(list)
-    b = st.tuples(st.just('B'), st.sampled_from(GRID), st.sampled_from([1, 1, 2, 3, 5, 'inf'])).map(list)
+    b = st.tuples(st.just('B'), st.sampled_from(GRID), st.sampled_from([1, 1, 2, 3, 5, 'inf', 1.5, 2.75, 3.5])).map(list)
     return st.one_of(hp, hp, b)
 
 
